@@ -175,7 +175,7 @@ func c07Gen(tier string, emit func(any)) {
 		if strings.Contains(r, "x") {
 			meta = "var x expression\n"
 		}
-		p1 := "@@\nvar x expression\n@@\n-hole(x)\n+" + r + "\n"
+		p1 := "# a description that is reported on stderr in the dry-run modes\n@@\nvar x expression\n@@\n-hole(x)\n+" + r + "\n"
 		for _, cx := range gen.ExprContexts() {
 			for _, arg := range []string{"1", "a.b"} {
 				if arg == "a.b" && tier != "thorough" && cx.ID != "if-cond" && cx.ID != "call-arg" {
@@ -186,7 +186,7 @@ func c07Gen(tier string, emit func(any)) {
 		}
 		if !strings.Contains(r, "x") || true {
 			r2 := strings.ReplaceAll(r, "x", "y0")
-			p2 := "@@\n" + meta[:0] + "@@\n-hole\n+" + r2 + "\n"
+			p2 := "# described\n@@\n" + meta[:0] + "@@\n-hole\n+" + r2 + "\n"
 			var ctxs []gen.Ctx
 			ctxs = append(ctxs, gen.IdentContexts()...)
 			ctxs = append(ctxs, gen.TypeContexts()...)
